@@ -1,2 +1,270 @@
+import Mathlib.Data.List.Nodup
 import JaqalModel.Model.Result
-/-! C15 — placeholder until the proofs land. -/
+import JaqalProofs.Lemmas.ResultBits
+import JaqalProofs.Lemmas.ResultHist
+import JaqalProofs.Lemmas.ResultNorm
+/-!
+# C15 — result views normalised and consistent
+
+Model: `JaqalModel/Model/Result.lean` (`Readout.as_str`, `int(s[::-1], 2)` of `OutputParser.process_trace`,
+the keys of the `*_by_str` views, `accept_readout`, `ProbabilisticSubcircuit.__init__` over `Rat`).
+
+Everything below is proved at full strength (no `_partial` theorems).  Two boundaries of the real code are
+stated as theorems rather than hidden: `C15_as_str_overflow` (an outcome `n ≥ 2^k` yields a string longer than
+`k`; `Readout` does not guard it) and `C15_as_str_zero_qubits` (`k = 0` yields the one-character string `"0"`).
+The normalisation theorems are over exact rationals; in the implementation the sum is one only up to
+floating-point rounding (runtime check, labelled in the harness).
+-/
+namespace Jaqal.Result
+
+/-! ## Readout: string form ↔ integer form -/
+
+theorem asStr_toList (k n : Nat) : (asStr k n).toList = (lowBits (width k n) n).map bitChar := by
+  unfold asStr; rw [String.toList_ofList, asBits_eq]
+
+theorem asStr_length (k n : Nat) : (asStr k n).length = width k n := by
+  unfold asStr; rw [String.length_ofList, asBits_eq]; simp [lowBits]
+
+/-- A readout of `k` qubits has exactly `k` characters. -/
+theorem C15_as_str_length {k n : Nat} (hk : 0 < k) (h : n < 2 ^ k) : (asStr k n).length = k := by
+  rw [asStr_length, width_of_lt hk h]
+
+example : (asStr 3 6).length = 3 := C15_as_str_length (by decide) (by decide)
+example : asStr 3 6 = "011" := by decide
+
+/-- Character `i` of the string is bit `i` of the integer: qubit 0 = least-significant bit = leftmost character. -/
+theorem C15_as_str_bit {k n i : Nat} (h : n < 2 ^ k) (hi : i < k) :
+    (asStr k n).toList[i]? = some (if n.testBit i then '1' else '0') := by
+  rw [asStr_toList, width_of_lt (by omega) h]
+  simp [lowBits, hi, bitChar]
+
+example : (asStr 3 1).toList[0]? = some '1' := by
+  have := C15_as_str_bit (k := 3) (n := 1) (i := 0) (by decide) (by decide); simpa using this
+example : asStr 3 1 = "100" := by decide
+
+/-- The string form read back as `int(s[::-1], 2)` is the integer, for every `k` and `n` (even out of range). -/
+theorem C15_roundtrip_all (k n : Nat) : ofStr (asStr k n) = some n := by
+  unfold ofStr
+  rw [asStr_toList]
+  have hw : 0 < width k n := by unfold width; omega
+  rw [intBase2_bits _ (by
+    intro h
+    have := congrArg List.length h
+    rw [lowBits_length] at this
+    simp at this; omega), valLSB_lowBits]
+  congr 1
+  apply Nat.mod_eq_of_lt
+  exact Nat.lt_of_lt_of_le (lt_two_pow_bitLen n)
+    (Nat.pow_le_pow_right (by omega) (by unfold width; omega))
+
+theorem C15_roundtrip {k n : Nat} (_hk : 0 < k) (_h : n < 2 ^ k) : ofStr (asStr k n) = some n :=
+  C15_roundtrip_all k n
+
+example : ofStr (asStr 4 11) = some 11 := C15_roundtrip (by decide) (by decide)
+
+/-- Conversely every `k`-character 0/1 string is the string form of exactly the integer it is read as:
+hardware outputs given as strings or as integers are interpreted identically. -/
+theorem C15_roundtrip_conv {k : Nat} {s : String} (hl : s.length = k)
+    (hc : ∀ c ∈ s.toList, c = '0' ∨ c = '1') (hk : 0 < k) :
+    ∃ n, n < 2 ^ k ∧ ofStr s = some n ∧ asStr k n = s := by
+  let l : List Bool := s.toList.map (fun c => c == '1')
+  have hlen : l.length = k := by simp [l, ← hl, String.length_toList]
+  have hs : s.toList = l.map bitChar := (chars_eq_map_bitChar s.toList hc).symm
+  have hne : l ≠ [] := by intro h; rw [h] at hlen; simp at hlen; omega
+  have hlt : valLSB l < 2 ^ k := by rw [← hlen]; exact valLSB_lt l
+  refine ⟨valLSB l, hlt, ?_, ?_⟩
+  · unfold ofStr; rw [hs]; exact intBase2_bits l hne
+  · unfold asStr
+    rw [asBits_eq, width_of_lt hk hlt]
+    conv => lhs; rw [← hlen, lowBits_valLSB, ← hs]
+    exact String.ofList_toList
+
+example : ∃ n, n < 2 ^ 3 ∧ ofStr "110" = some n ∧ asStr 3 n = "110" :=
+  C15_roundtrip_conv (by decide) (by decide) (by decide)
+example : ofStr "110" = some 3 := by decide
+
+/-- The unguarded boundary: for `n ≥ 2^k` the code produces the full binary expansion, which is longer than
+`k` characters (it still reads back as `n`, and its characters are still the bits of `n`). -/
+theorem C15_as_str_overflow {k n : Nat} (h : 2 ^ k ≤ n) :
+    (asStr k n).length = n.log2 + 1 ∧ k < (asStr k n).length ∧ ofStr (asStr k n) = some n ∧
+    ∀ i, i < n.log2 + 1 → (asStr k n).toList[i]? = some (if n.testBit i then '1' else '0') := by
+  obtain ⟨h1, h2⟩ := width_of_ge h
+  refine ⟨by rw [asStr_length, h1], by rw [asStr_length, h1]; exact h2, C15_roundtrip_all k n, ?_⟩
+  intro i hi
+  rw [asStr_toList, h1]
+  simp [lowBits, hi, bitChar]
+
+example : asStr 2 5 = "101" ∧ (asStr 2 5).length = 3 := by decide
+
+/-- The other boundary: a subcircuit with no measured qubit renders its only outcome as `"0"` (one character). -/
+theorem C15_as_str_zero_qubits : asStr 0 0 = "0" ∧ (asStr 0 0).length = 1 := by decide
+
+/-! ## The two views of a subcircuit -/
+
+theorem viewKeys_getElem? (k len n : Nat) (h : n < len) : (viewKeys k len)[n]? = some (asStr k n) := by
+  unfold viewKeys
+  rw [List.getElem?_map, List.getElem?_range h]; rfl
+
+/-- The string-keyed view lists each of the `2^k` bit strings exactly once, in integer order:
+entry `n` has key `asStr k n` (so `by_str[key n] = by_int[n]`, the values being paired by `enumerate`). -/
+theorem C15_view_keys {k : Nat} (hk : 0 < k) :
+    (viewKeys k (2 ^ k)).length = 2 ^ k ∧
+    (viewKeys k (2 ^ k)).Nodup ∧
+    (∀ n, n < 2 ^ k → (viewKeys k (2 ^ k))[n]? = some (asStr k n)) ∧
+    (∀ s : String, s.length = k → (∀ c ∈ s.toList, c = '0' ∨ c = '1') → s ∈ viewKeys k (2 ^ k)) ∧
+    (∀ s ∈ viewKeys k (2 ^ k), s.length = k ∧ ∀ c ∈ s.toList, c = '0' ∨ c = '1') := by
+  refine ⟨by simp [viewKeys], ?_, fun n h => viewKeys_getElem? k _ n h, ?_, ?_⟩
+  · unfold viewKeys
+    apply List.Nodup.map_on _ List.nodup_range
+    intro a _ b _ hab
+    have := congrArg ofStr hab
+    rw [C15_roundtrip_all, C15_roundtrip_all] at this
+    exact Option.some.inj this
+  · intro s hl hc
+    obtain ⟨n, hn, -, rfl⟩ := C15_roundtrip_conv hl hc hk
+    unfold viewKeys
+    exact List.mem_map.mpr ⟨n, List.mem_range.mpr hn, rfl⟩
+  · intro s hs
+    unfold viewKeys at hs
+    obtain ⟨n, hn, rfl⟩ := List.mem_map.mp hs
+    have hn := List.mem_range.mp hn
+    refine ⟨C15_as_str_length hk hn, ?_⟩
+    intro c hc
+    rw [asStr_toList] at hc
+    obtain ⟨b, -, rfl⟩ := List.mem_map.mp hc
+    cases b <;> simp [bitChar]
+
+example : viewKeys 2 (2 ^ 2) = ["00", "10", "01", "11"] := by decide
+
+/-- Keys are pairwise distinct whatever the vector length (the `OrderedDict` never merges two entries). -/
+theorem C15_view_keys_nodup (k len : Nat) : (viewKeys k len).Nodup := by
+  unfold viewKeys
+  apply List.Nodup.map_on _ List.nodup_range
+  intro a _ b _ hab
+  have := congrArg ofStr hab
+  rw [C15_roundtrip_all, C15_roundtrip_all] at this
+  exact Option.some.inj this
+
+/-! ## Relative frequencies are the counts of the recorded readouts -/
+
+theorem C15_histogram {len i : Nat} (outs : List Nat) (hi : i < len) :
+    (histogram len outs)[i]? = some (outs.count i) := by
+  rw [histogram_getElem?, if_pos hi]
+
+theorem C15_histogram_sum {len : Nat} {outs : List Nat} (h : ∀ o ∈ outs, o < len) :
+    (histogram len outs).sum = outs.length := by
+  rw [histogram_sum, List.filter_eq_self.mpr (by simpa using h)]
+
+/-- The code path that exists (`relative_frequencies[as_int] += 1` one readout at a time, `IndexError` on an
+outcome `≥ len`) computes exactly the histogram, and fails exactly when some outcome is out of range. -/
+theorem C15_accept_all (len : Nat) (outs : List Nat) :
+    acceptAll len outs = if ∀ o ∈ outs, o < len then some (histogram len outs) else none := by
+  unfold acceptAll
+  rw [← histogram_nil, foldlM_bump]; simp
+
+example : histogram 4 [1, 3, 1, 0] = [1, 2, 0, 1] := by decide
+example : (histogram 4 [1, 3, 1, 0]).sum = 4 := C15_histogram_sum (by decide)
+example : acceptAll 4 [1, 3, 1, 0] = some [1, 2, 0, 1] := by decide
+example : acceptAll 4 [1, 4] = none := by decide
+
+/-! ## Probabilities: clip, renormalise, warn / raise -/
+
+/-- Whenever the constructor does not raise, the stored probabilities are non-negative, sum to one (exactly,
+over the rationals) and there is one per input entry. -/
+theorem C15_normalize {p q : List Rat} {w : Bool} (h : normalize p = .ok (q, w)) :
+    (∀ x ∈ q, 0 ≤ x) ∧ q.sum = 1 ∧ q.length = p.length := by
+  rw [normalize_eq] at h
+  cases he : normErr p with
+  | none => rw [he] at h; simp at h
+  | some e =>
+    rw [he] at h
+    simp only at h
+    split_ifs at h with hf
+    simp only [Except.ok.injEq, Prod.mk.injEq] at h
+    obtain ⟨rfl, -⟩ := h
+    apply renorm_spec
+    intro ht
+    have := normErr_total_zero he ht
+    have := cutoffFail_lt_one
+    exact hf (by linarith)
+
+/-- What is stored, the warning flag, and when: the clipped vector divided by its sum; accepted exactly when
+the error is at most `CUTOFF_FAIL`; a warning exactly when it exceeds `CUTOFF_WARN`. -/
+theorem C15_normalize_ok_iff (p q : List Rat) (w : Bool) :
+    normalize p = .ok (q, w) ↔
+      ∃ e, normErr p = some e ∧ e ≤ cutoffFail ∧ q = renorm p ∧ w = decide (cutoffWarn < e) := by
+  rw [normalize_eq]
+  cases he : normErr p with
+  | none => simp
+  | some e =>
+    simp only [Option.some.injEq, exists_eq_left']
+    split_ifs with hf
+    · simp only [false_iff, not_and]
+      intro h; exact absurd hf (not_lt.mpr h)
+    · simp only [Except.ok.injEq, Prod.mk.injEq]
+      constructor
+      · rintro ⟨rfl, rfl⟩; exact ⟨not_lt.mp hf, rfl, rfl⟩
+      · rintro ⟨-, rfl, rfl⟩; exact ⟨rfl, rfl⟩
+
+/-- A vector that already is a distribution is stored unchanged, without a warning. -/
+theorem C15_normalize_id {p : List Rat} (h : ∀ x ∈ p, 0 ≤ x ∧ x ≤ 1) (hs : p.sum = 1) :
+    normalize p = .ok (p, false) := by
+  have hp : p ≠ [] := by intro h0; rw [h0] at hs; simp at hs
+  have hc := clipped_of_unit h
+  have ht : total p = 1 := by unfold total; rw [hc, hs]
+  rw [C15_normalize_ok_iff]
+  refine ⟨0, ?_, ?_, ?_, ?_⟩
+  · unfold normErr; rw [clipErr_of_unit hp h]
+    simp [totalErr, ht, absR, pyMax]
+  · have := cutoffWarn_nonneg; have := cutoffWarn_le_fail; linarith
+  · rw [renorm_of_total_one ht, hc]
+  · have := cutoffWarn_nonneg
+    simp [not_lt.mpr this]
+
+/-- The constructor raises `RuntimeError` exactly when the error `max(total_err, clip_err)` exceeds
+`CUTOFF_FAIL` (this includes a vector whose clipped sum is zero: then `total_err = 1`), and `ValueError`
+(numpy: `max` of an empty array) exactly on the empty vector. -/
+theorem C15_normalize_reject (p : List Rat) :
+    (normalize p = .error "runtime" ↔ ∃ e, normErr p = some e ∧ cutoffFail < e) ∧
+    (normalize p = .error "value" ↔ p = []) ∧
+    (∀ msg, normalize p = .error msg → msg = "runtime" ∨ msg = "value") := by
+  rw [normalize_eq]
+  cases he : normErr p with
+  | none =>
+    have : p = [] := by
+      unfold normErr at he
+      simpa [clipErr_eq_none] using he
+    simp [this]
+  | some e =>
+    have : p ≠ [] := by
+      intro h0; rw [h0] at he; simp [normErr, clipErr, maxList] at he
+    simp only [Option.some.injEq, exists_eq_left']
+    split_ifs with hf <;> simp [hf, this]
+
+example : normalize [1/2, 1/4, 1/4] = .ok ([1/2, 1/4, 1/4], false) :=
+  C15_normalize_id (by decide +kernel) (by decide +kernel)
+example : normalize [1/2, 1/2 + 1/1000000] = .ok ([500000/1000001, 500001/1000001], true) := by decide +kernel
+example : normalize [-1/1000000, 1/2, 1/2] = .ok ([0, 1/2, 1/2], true) := by decide +kernel
+example : normalize [1/2, 1/4] = .error "runtime" := by decide +kernel
+example : normalize [0, 0] = .error "runtime" := by decide +kernel
+example : normalize [] = .error "value" := by decide +kernel
+example : ∃ e, normErr [1/2, 1/4] = some e ∧ cutoffFail < e := ⟨1/4, by decide +kernel, by decide +kernel⟩
+
+end Jaqal.Result
+
+#print axioms Jaqal.Result.C15_as_str_length
+#print axioms Jaqal.Result.C15_as_str_bit
+#print axioms Jaqal.Result.C15_roundtrip_all
+#print axioms Jaqal.Result.C15_roundtrip
+#print axioms Jaqal.Result.C15_roundtrip_conv
+#print axioms Jaqal.Result.C15_as_str_overflow
+#print axioms Jaqal.Result.C15_as_str_zero_qubits
+#print axioms Jaqal.Result.C15_view_keys
+#print axioms Jaqal.Result.C15_view_keys_nodup
+#print axioms Jaqal.Result.C15_histogram
+#print axioms Jaqal.Result.C15_histogram_sum
+#print axioms Jaqal.Result.C15_accept_all
+#print axioms Jaqal.Result.C15_normalize
+#print axioms Jaqal.Result.C15_normalize_ok_iff
+#print axioms Jaqal.Result.C15_normalize_id
+#print axioms Jaqal.Result.C15_normalize_reject
